@@ -207,7 +207,13 @@ class HierDictDocument(DictDocument):
                 retval = inst
 
             elif issubclass(cls, ComplexModelBase):
-                retval = self._doc_to_object(ctx, cls, inst, validator)
+                if inst is None:
+                    # _doc_to_object returns an empty argument list for a
+                    # missing request body. a null member is null: whether it's
+                    # acceptable is decided by nillable in validate_native
+                    retval = None
+                else:
+                    retval = self._doc_to_object(ctx, cls, inst, validator)
 
             else:
                 if cls_attrs.empty_is_none and inst in (u'', b''):
